@@ -234,6 +234,28 @@ fn mixed(ctx: &mut Ctx, q: (i32, i32), a: f32, n: i64) {
         }
     }
 }
+/// Quantity::from(Time) / from(DimensionlessInteger) are pure: the value obtained for `n` must not depend on
+/// which conversion ran just before. Predecessors are chosen in arithmetic relation to `n` (same low
+/// 32 / 24 bits, +- 2^k, +- whole seconds) since a memo keyed on part of the argument collides only there.
+fn conversion_purity(ctx: &mut Ctx, n: i64, rng: &mut Rng) {
+    let related = match rng.below(5) {
+        0 => n ^ (1i64 << (32 + rng.below(30))),
+        1 => n.wrapping_add((rng.range_i64(1, 1 << 20)) << 32),
+        2 => n ^ (1i64 << rng.below(62)),
+        3 => n.saturating_add(rng.range_i64(-1000, 1000) * 1_000_000_000),
+        _ => 0,
+    };
+    let unrelated = rng.mag_i64(50) | 1;
+    let conv_t = |pred: i64| { let _ = Quantity::from(Time(pred)); Quantity::from(Time(n)).value };
+    let conv_d = |pred: i64| { let _ = Quantity::from(DimensionlessInteger(pred)); Quantity::from(DimensionlessInteger(n)).value };
+    for (name, a, b) in [("Quantity::from(Time)", conv_t(related), conv_t(unrelated)), ("Quantity::from(DimensionlessInteger)", conv_d(related), conv_d(unrelated))] {
+        ctx.rep.eval();
+        ctx.rep.tally("conversion_purity_pairs");
+        if a.to_bits() != b.to_bits() {
+            ctx.rep.violation(&format!("C01/conversion-depends-on-previous-call/{}", name), ctx.sub, ctx.case, format!("{}({}) = {} after converting {} but {} after converting {}", name, n, f(a), related, f(b), unrelated));
+        }
+    }
+}
 fn time_only(ctx: &mut Ctx, n1: i64, n2: i64) {
     let (t1, t2) = (Time(n1), Time(n2));
     let (d1, _d2) = (DimensionlessInteger(n1), DimensionlessInteger(n2));
@@ -346,6 +368,8 @@ fn main() {
                 let mut ctx = Ctx { rep: &mut rep, sub: "mixed", case };
                 mixed(&mut ctx, (m, s), a, n);
                 let n2 = rng.mag_i64(50);
+                conversion_purity(&mut ctx, n, &mut rng);
+                conversion_purity(&mut ctx, n2 << rng.below(12), &mut rng);
                 time_only(&mut ctx, n, n2);
                 if rep.want_sample("mixed") {
                     rep.sample("mixed", format!("Quantity({}, mm^{} s^{}) with Time({}) / DimensionlessInteger({}): 24 mixed operator cells", f(a), m, s, n, n));
